@@ -5,10 +5,13 @@ ready queue is stepped one handle at a time.
 case = {"k": "multi"|"chain"|"timeout"|"wait",
         "init": [state...]      state   = None | ["res", n] | ["exn", code] | ["cancel"]
         "args": [input index...], "keys": None | [int...],
-        "ev": [event...]}       event   = ["c", i, outcome] | ["x"] | ["s"] | ["t"] | ["n"]
+        "ev": [event...],       event   = ["c", i, outcome] | ["x"] | ["s"] | ["t"] | ["n"]
+        "q": [class...],        quiet_exceptions (multi, with_timeout): "E" Exception | "U" UserErr | "C" | "T" | "I"
+        "td": bool}             with_timeout: deadline given as a datetime.timedelta instead of an absolute time
 exception code: int n -> UserErr(n); "C" CancelledError; "T" TimeoutError; "I" InvalidStateError
 """
 import asyncio
+import datetime
 import heapq
 import itertools
 import logging
@@ -30,12 +33,12 @@ TRUSTED_BASE = [
     "loop._scheduled to loop._ready on a TimerFire event (private CPython attributes); WaitIterator._return_result is wrapped per instance "
     "to log what it yields",
     "inputs are tornado/asyncio Futures settled with int results, Exception subclasses or cancel(); concurrent.futures.Future inputs, "
-    "non-Exception BaseExceptions, quiet_exceptions and nested yieldables (convert_yielded) are not modelled",
+    "non-Exception BaseExceptions other than CancelledError and nested yieldables (convert_yielded) are not modelled",
 ]
 ASSUMPTIONS = ["multi: child indices are valid (the only hypothesis of any theorem)"]
 RULE = ("per combinator: every event sequence up to a length bound over {complete i with result/exception/cancel, cancel output, loop step, "
         "deadline, next()} with and without a draining tail; every outcome assignment x completion order x already-done subset of up to 4 "
-        "inputs (thorough; sampled in quick); random longer schedules; malformed cases; distinct by canonical JSON; non-trivial = at least "
+        "inputs (exhaustive in thorough incl. n = 4; sampled in quick); random longer schedules; malformed cases; distinct by canonical JSON; non-trivial = at least "
         "one input done")
 
 
@@ -78,6 +81,11 @@ def _mk_exc(code):
     if code == "I":
         return asyncio.InvalidStateError()
     return UserErr(int(code))
+
+
+def _quiet(case):
+    cls = {"E": Exception, "U": UserErr, "C": asyncio.CancelledError, "T": asyncio.TimeoutError, "I": asyncio.InvalidStateError}
+    return tuple(cls[q] for q in case.get("q", []))
 
 
 def _settle(f, oc):
@@ -169,15 +177,16 @@ def _run(case, loop):
     if kind == "multi":
         ch = [ins[a] for a in case["args"]]
         if keys is None:
-            out = gen.multi(ch)
+            out = (gen.multi_future if case.get("td") else gen.multi)(ch, quiet_exceptions=_quiet(case))
         else:
             assert len(set(keys)) == len(keys)
-            out = gen.multi({_key(k): f for k, f in zip(keys, ch)})
+            out = (gen.multi_future if case.get("td") else gen.multi)({_key(k): f for k, f in zip(keys, ch)}, quiet_exceptions=_quiet(case))
     elif kind == "chain":
         chain_future(ins[0], ins[1])
     elif kind == "timeout":
         io = IOLoop.current()
-        out = gen.with_timeout(io.time() + 3600, ins[0])
+        deadline = datetime.timedelta(seconds=3600) if case.get("td") else io.time() + 3600
+        out = gen.with_timeout(deadline, ins[0], quiet_exceptions=_quiet(case))
         ths = [h for h in loop._scheduled]
         assert len(ths) == 1
         th = ths[0]
@@ -286,9 +295,11 @@ def g_event(ev):
 def coq_input(case):
     kind = {"multi": "KMulti", "chain": "KChain", "timeout": "KTimeout", "wait": "KWait"}[case["k"]]
     keys = "None" if case["keys"] is None else "(Some %s)" % G.glist([G.gn(k) for k in case["keys"]], "N")
-    return "(mkCase %s %s %s %s %s)" % (
+    qn = {"E": "QException", "U": "QUser", "C": "QCancelled", "T": "QTimeout", "I": "QInvalid"}
+    return "(mkCase %s %s %s %s %s %s)" % (
         kind, G.glist([g_state(s) for s in case["init"]], "(fstate N)"),
         G.glist([G.gnat(a) for a in case["args"]], "nat"), keys,
+        G.glist([qn[q] for q in case.get("q", [])], "qclass"),
         G.glist([g_event(e) for e in case["ev"]], "event"))
 
 
@@ -395,8 +406,8 @@ def py_check(case, o):
 OUTS = [["res", 7], ["exn", 3], ["cancel"]]
 
 
-def mk(k, init, args, keys, ev):
-    return {"k": k, "init": init, "args": list(args), "keys": keys, "ev": [list(e) for e in ev]}
+def mk(k, init, args, keys, ev, q=(), td=False):
+    return {"k": k, "init": init, "args": list(args), "keys": keys, "ev": [list(e) for e in ev], "q": list(q), "td": bool(td)}
 
 
 def tail(case, extra=0):
@@ -447,7 +458,7 @@ def sequences(k, L, with_plain=True):
     return out
 
 
-def orders(k, nmax, rng, sample=None):
+def orders(k, nmax, rng, sample=None, one_style=False):
     """every outcome assignment x completion order x already-done subset"""
     out = []
     for n in range(0, nmax + 1):
@@ -466,7 +477,7 @@ def orders(k, nmax, rng, sample=None):
         for outs, pre, perm in combos:
             init = [list(outs[i]) if pre[i] else None for i in range(n)]
             args = list(range(n)) if k in ("multi", "wait") else []
-            for style in (0, 1):
+            for style in ((rng.randrange(2),) if one_style else (0, 1)):
                 ev = []
                 for i in perm:
                     ev.append(["c", i, list(outs[i])])
@@ -477,7 +488,8 @@ def orders(k, nmax, rng, sample=None):
                 if k == "timeout":
                     pos = rng.randrange(len(ev) + 1)
                     ev.insert(pos, ["t"])
-                out.append(tail(mk(k, init, args, None, ev)))
+                q = rng.choice([[], [], ["U"], ["E"], ["C"], ["T", "U"]]) if k in ("multi", "timeout") else []
+                out.append(tail(mk(k, init, args, None, ev, q, td=(k in ("multi", "timeout") and rng.random() < 0.25))))
     return out
 
 
@@ -523,7 +535,10 @@ def rand_case(rng, k=None):
             ev.append(["n"] if k == "wait" else ["t"] if k == "timeout" else ["s"])
         else:
             ev.append(rng.choice([["t"], ["n"], ["c", n + rng.randrange(2), ["res", 1]]]))
-    c = mk(k, init, args, keys, ev)
+    q = []
+    if k in ("multi", "timeout") and rng.random() < 0.5:
+        q = rng.sample(["E", "U", "C", "T", "I"], rng.choice([1, 1, 2, 3]))
+    c = mk(k, init, args, keys, ev, q, td=(k in ("multi", "timeout") and rng.random() < 0.3))
     return tail(c) if rng.random() < 0.7 else c
 
 
@@ -557,6 +572,18 @@ def corpus_cases():
         tail(mk("timeout", [None], [], None, [["t"], ["c", 0, ["exn", 2]]])),
         tail(mk("timeout", [None], [], None, [["c", 0, ["res", 2]], ["t"]])),
         tail(mk("wait", [["res", 1], None], [1, 0], [7, 9], [["c", 1, C]])),
+        # quiet_exceptions / logging of later failures; timedelta deadline; multi_future alias
+        tail(mk("multi", [None, None, None], [0, 1, 2], None, [["c", 2, ["exn", 1]], ["c", 1, C], ["c", 0, ["exn", 2]]])),
+        tail(mk("multi", [None, None, None], [0, 1, 2], None, [["c", 2, ["exn", 1]], ["c", 1, C], ["c", 0, ["exn", 2]]], ["U"])),
+        tail(mk("multi", [None, None, None], [0, 1, 2], [5, 6, 7], [["c", 2, ["exn", 1]], ["c", 1, C], ["c", 0, ["exn", 2]]], ["E", "C"], td=True)),
+        tail(mk("multi", [None, None], [0, 1, 0], None, [["x"], ["c", 0, ["exn", 1]], ["c", 1, ["exn", "T"]]], ["T"])),
+        tail(mk("timeout", [None], [], None, [["t"], ["s"], ["c", 0, ["exn", 2]]], ["U"], td=True)),
+        tail(mk("timeout", [None], [], None, [["t"], ["s"], ["c", 0, ["exn", 2]]], ["T"])),
+        tail(mk("timeout", [None], [], None, [["t"], ["c", 0, ["exn", "T"]]], ["E"])),
+        # the consumer abandons (cancels) the future it got from next(); inputs finish before it asks again
+        tail(mk("wait", [None, None], [0, 1], None, [["n"], ["x"], ["c", 1, ["res", 3]], ["s"], ["c", 0, ["res", 4]]])),
+        tail(mk("wait", [None], [0], [6], [["n"], ["x"], ["c", 0, ["exn", 2]], ["s"], ["n"], ["x"]])),
+        tail(mk("wait", [None, None, None], [2, 0, 1], None, [["n"], ["c", 0, C], ["x"], ["s"], ["c", 2, ["res", 1]], ["s"], ["n"], ["x"], ["c", 1, ["res", 2]]])),
     ] + dup_wait_cases(None)
 
 
@@ -592,7 +619,7 @@ def gen_cases(rng, tier):
         out += sequences("wait", 3)
         for k in ("multi", "wait"):
             out += orders(k, 3, rng)
-            out += [c for c in orders(k, 4, rng, sample=1500) if len(c["init"]) == 4]
+            out += [c for c in orders(k, 4, rng, one_style=True) if len(c["init"]) == 4]   # exhaustive for n = 4
         out += orders("chain", 2, rng)
         out += orders("timeout", 1, rng)
         for _ in range(3000):
@@ -630,6 +657,10 @@ def classify(case, o):
         yield "consumer-cancel"
     if case["keys"] is not None:
         yield "keyed"
+    if case.get("q"):
+        yield "quiet-exceptions"
+    if case.get("td"):
+        yield "alt-entry(timedelta/multi_future)"
     if isinstance(o, list):
         quiet = {"multi": lambda: not o[4], "chain": lambda: o[1] == 0, "timeout": lambda: not o[2], "wait": lambda: not o[7]}[case["k"]]()
         yield "quiescent" if quiet else "mid-flight"
@@ -654,6 +685,10 @@ def shrink(case):
         yield dict(case, ev=ev[:i] + ev[i + 1:])
     if case["keys"] is not None:
         yield dict(case, keys=None)
+    if case.get("q"):
+        yield dict(case, q=[])
+    if case.get("td"):
+        yield dict(case, td=False)
     if case["k"] in ("multi", "wait") and case["args"]:
         yield dict(case, args=case["args"][:-1], keys=None if case["keys"] is None else case["keys"][:-1])
 
